@@ -1018,9 +1018,10 @@ def run(ctx):
         cases.append((nn, False, mask_of(A_, False), 1, ["sample"], "alt"))
     probe = [c for c in cases if c[0] == 3 and not c[1]][-1]
     a, b = fam_net(probe), fam_net(probe)
-    assert a["sig"] == b["sig"] and a["evals"] == b["evals"] and \
-        [v["key"] for v in a["viol"]] == [v["key"] for v in b["viol"]], \
-        "non-deterministic observations"
+    ctx.selftest_same(
+        a["sig"] == b["sig"] and a["evals"] == b["evals"] and
+        [v["key"] for v in a["viol"]] == [v["key"] for v in b["viol"]],
+        "fam_net%r" % (probe,))
     ctx.explore("net", cases, desc="Network: permuted_copy and rebuild, "
                 "all public measures")
     # -- InteractingNetworks
